@@ -117,6 +117,32 @@ type Path struct {
 	relativePath string
 }
 
+// rootTreePrefix returns the prefix to use for paths within a tree
+// that was named directly by `name` (a reference name or a
+// command-line argument). `git rev-parse` splits such an expression
+// at the first ':' that is not within braces: if `name` already
+// includes a path part (like 'main~:src'), further components are
+// appended using '/'; otherwise the path part has to be started using
+// ':' (like 'refs/tags/tree-tag:file').
+func rootTreePrefix(name string) string {
+	depth := 0
+	for i := 0; i < len(name); i++ {
+		switch {
+		case name[i] == '{':
+			depth++
+		case depth > 0 && name[i] == '}':
+			depth--
+		case depth == 0 && name[i] == ':':
+			if i == len(name)-1 {
+				// The path part is still empty (like 'main:').
+				return name
+			}
+			return name + "/"
+		}
+	}
+	return name + ":"
+}
+
 // Return the path of this object under the assumption that another
 // path component will be appended to it.
 func (p *Path) TreePrefix() string {
@@ -132,9 +158,11 @@ func (p *Path) TreePrefix() string {
 				return p.parent.TreePrefix() + p.relativePath + "/"
 			}
 		case p.relativePath != "":
-			return p.relativePath + "/"
+			return rootTreePrefix(p.relativePath)
 		default:
-			return "???"
+			// Nothing names this tree; its object ID can still
+			// anchor a path.
+			return p.OID.String() + ":"
 		}
 	case "commit", "tag":
 		switch {
